@@ -32,7 +32,9 @@ structure BProps where
   overflow : Bool         -- overflow ≠ visible
   blockLevel : Bool
   inlineBlock : Bool
-  hasLines : Bool         -- its children are line boxes (inline content painted at step 7)
+  hasLines : Bool         -- it paints the inline drawing of its children as its own content: a block container
+                          -- whose children are line boxes (step 7), or an inline box that forms a context (step 6)
+  text : Bool             -- a text run (leaf): drawInlineLevel paints it as content
   deriving DecidableEq, Repr
 
 inductive Box where
@@ -68,7 +70,7 @@ structure Acc where
   childContexts : List CCtx := []      -- in discovery order (with the insert-before-descendants rule)
   blocks : List Nat := []              -- step 4: in-flow non-positioned block-level boxes
   floats : List (List PEv) := []       -- step 5
-  blocksAndCells : List Nat := []      -- step 7: boxes whose line children are painted (ids with hasLines)
+  blocksAndCells : List (List PEv) := [] -- step 7: per in-flow block with line children, the inline drawing of its lines
   kept : List Nat := []                -- the boxes left in the context's normal tree, pre-order (drawOutlines walks them)
   deriving Repr
 
@@ -76,13 +78,13 @@ def insertAt {α : Type} (l : List α) (i : Nat) (x : α) : List α := l.take i 
 
 /-- drawStackingContext for a context whose lists are known.
     `isBlock`: the context's box is a Block/InlineBlock/... (step 2 paints its background and border).
-    `lines`: ids (in order: the box itself, then blocksAndCells) whose inline content is painted at step 7.
+    `lines`: the inline drawings painted at steps 6-7 (the box's own, then those of blocksAndCells).
     `kept`: the in-flow descendants left in the box's tree (step 10 paints the box's outline, then theirs).
     Opacity: everything (outlines included) goes to a group that is composited last; transform: applied
     before step 2, until the end; overflow: steps 3-9 are clipped, the background/border (step 2) and the
     outlines (step 10) are not. -/
 def drawCtx (id : Nat) (pr : BProps) (neg zero pos : List CCtx) (blocks : List Nat) (floats : List (List PEv))
-    (lines kept : List Nat) : List PEv :=
+    (lines : List (List PEv)) (kept : List Nat) : List PEv :=
   (if pr.opacity then [(id, Layer.groupOpen)] else [])
   ++ (if pr.transform then [(id, Layer.xformOpen)] else [])
   ++ (if pr.blockLevel || pr.inlineBlock then [(id, .background), (id, .border)] else [])
@@ -90,7 +92,7 @@ def drawCtx (id : Nat) (pr : BProps) (neg zero pos : List CCtx) (blocks : List N
   ++ (neg.flatMap (·.2))
   ++ (blocks.flatMap fun b => [(b, Layer.background), (b, Layer.border)])
   ++ floats.flatten
-  ++ (lines.map fun b => (b, Layer.content))
+  ++ lines.flatten
   ++ (zero.flatMap (·.2))
   ++ (pos.flatMap (·.2))
   ++ (if pr.overflow then [(id, Layer.clipClose)] else [])
@@ -98,13 +100,14 @@ def drawCtx (id : Nat) (pr : BProps) (neg zero pos : List CCtx) (blocks : List N
   ++ (if pr.transform then [(id, Layer.xformClose)] else [])
   ++ (if pr.opacity then [(id, Layer.groupClose)] else [])
 
-/-- NewStackingContext: partition by sign, stable sort of the negative and positive lists, then draw -/
-def finishCtx (id : Nat) (pr : BProps) (acc : Acc) (own : List CCtx) : List PEv :=
+/-- NewStackingContext: partition by sign, stable sort of the negative and positive lists, then draw.
+    `inl`: the inline drawing of the box's (kept) children. -/
+def finishCtx (id : Nat) (pr : BProps) (acc : Acc) (own : List CCtx) (inl : List PEv) : List PEv :=
   let neg := sortZ (own.filter (·.1 < 0))
   let zero := own.filter (·.1 == 0)
   let pos := sortZ (own.filter (·.1 > 0))
   drawCtx id pr neg zero pos acc.blocks acc.floats
-    ((if pr.hasLines then [id] else []) ++ acc.blocksAndCells) acc.kept
+    ((if pr.hasLines then [inl] else []) ++ acc.blocksAndCells) acc.kept
 
 mutual
   /-- NewStackingContextFromBox(box, page, childContexts) fused with drawStackingContext.
@@ -114,43 +117,50 @@ mutual
   def ctxOfBox : Box → Option (List CCtx) → List PEv × List CCtx
     | .mk id pr children, shared =>
       let start : Acc := { childContexts := shared.getD [] }
-      let acc := dispatchChildren children start
+      let (acc, inl) := dispatchChildren children start
       match shared with
-      | none => (finishCtx id pr acc acc.childContexts, [])
-      | some _ => (finishCtx id pr acc [], acc.childContexts)
+      | none => (finishCtx id pr acc acc.childContexts inl, [])
+      | some _ => (finishCtx id pr acc [] inl, acc.childContexts)
 
-  /-- dispatchChildren over the children list (boxes kept in the normal tree are not returned: only the
-      accumulated lists matter for painting) -/
-  def dispatchChildren : List Box → Acc → Acc
-    | [], acc => acc
-    | ch :: rest, acc => dispatchChildren rest (dispatch ch acc)
+  /-- dispatchChildren over the children list: the accumulated lists, and the inline drawing of the children
+      that stay in the tree (what drawInlineLevel paints when it walks them, in tree order) -/
+  def dispatchChildren : List Box → Acc → Acc × List PEv
+    | [], acc => (acc, [])
+    | ch :: rest, acc =>
+      let (acc1, i1) := dispatch ch acc
+      let (acc2, i2) := dispatchChildren rest acc1
+      (acc2, i1 ++ i2)
 
-  /-- the `dispatch` closure -/
-  def dispatch : Box → Acc → Acc
+  /-- the `dispatch` closure; the second component is what drawInlineLevel paints for the box that stays in
+      the tree at this place (nothing if the box was removed from the tree) -/
+  def dispatch : Box → Acc → Acc × List PEv
     | .mk id pr children, acc =>
       if pr.makesContext then
         -- a real context: appended to the child contexts
         let (evs, _) := ctxOfBox (.mk id pr children) none
-        { acc with childContexts := acc.childContexts ++ [(pr.zIndex, evs)] }
+        ({ acc with childContexts := acc.childContexts ++ [(pr.zIndex, evs)] }, [])
       else if pr.positioned then
         -- positioned, z-index auto: fake context inserted at the index before its descendants' contexts
         let index := acc.childContexts.length
         let (evs, cc) := ctxOfBox (.mk id pr children) (some acc.childContexts)
-        { acc with childContexts := insertAt cc index (0, evs) }
+        ({ acc with childContexts := insertAt cc index (0, evs) }, [])
       else if pr.floated then
         let (evs, cc) := ctxOfBox (.mk id pr children) (some acc.childContexts)
-        { acc with childContexts := cc, floats := acc.floats ++ [evs] }
+        ({ acc with childContexts := cc, floats := acc.floats ++ [evs] }, [])
       else if pr.inlineBlock then
-        -- kept in the tree, drawn with the inline content of its line: out of this model's scope
-        let (_, cc) := ctxOfBox (.mk id pr children) (some acc.childContexts)
-        { acc with childContexts := cc }
+        -- the fake context stays in the tree of inline boxes: drawInlineLevel paints it atomically, in place
+        let (evs, cc) := ctxOfBox (.mk id pr children) (some acc.childContexts)
+        ({ acc with childContexts := cc }, evs)
       else
         let bi := acc.blocks.length
         let ci := acc.blocksAndCells.length
         -- the box stays in the tree: drawOutlines reaches it before its children
-        let acc' := dispatchChildren children { acc with kept := acc.kept ++ [id] }
+        let (acc', inl) := dispatchChildren children { acc with kept := acc.kept ++ [id] }
         let acc'' := if pr.blockLevel then { acc' with blocks := insertAt acc'.blocks bi id } else acc'
-        if pr.blockLevel && pr.hasLines then { acc'' with blocksAndCells := insertAt acc''.blocksAndCells ci id } else acc''
+        let acc3 := if pr.blockLevel && pr.hasLines then { acc'' with blocksAndCells := insertAt acc''.blocksAndCells ci inl } else acc''
+        -- drawInlineLevel: a text run paints its text; a line / inline box paints its children; block-level
+        -- boxes are not met inside lines
+        (acc3, if pr.text then [(id, Layer.content)] else if pr.blockLevel then [] else inl)
 end
 
 /-- drawPage → NewStackingContextFromPage: the root element's box is unconditionally a context -/
